@@ -112,7 +112,22 @@ fn res(name: &str, aliases: &[&str], mime: &str, bytes: &[u8]) -> Res {
     Res { name: name.into(), aliases: aliases.iter().map(|s| s.to_string()).collect(), template: false, mime: mime.into(), bytes: bytes.to_vec(), bad_base64: false, deps: vec![], permission: 0 }
 }
 
+/// how many use_resources calls precede the one that loads the case's store
+fn prior_calls(c: &Case) -> usize {
+    (c.url.len() + c.rules.len() + c.store.len()) % 3
+}
+/// what those earlier calls load: every identifier the pool knows, redirectable and unprivileged
+fn prior_store(k: usize) -> Vec<Res> {
+    let names: &[(&str, &[&str])] = &[("noop.js", &["noopjs", "noop"]), ("noop.txt", &["nooptext"]), ("1x1.gif", &["1x1-transparent.gif"]), ("fn.js", &["fnjs"]),
+        ("perm.js", &["permjs"]), ("perm.txt", &[]), ("style.css", &["css"]), ("x", &["y:3"]), ("tmpl.js", &["tmpl"]), ("missing.js", &[]), ("deps.txt", &[]), ("bad.js", &["badjs"])];
+    names.iter().map(|(n, a)| res(n, a, "text/plain", if k == 0 { b"old" } else { b"older" })).collect()
+}
+
 fn gen_store(r: &mut Rng) -> Vec<Res> {
+    // sometimes nothing at all is loaded (by the last call)
+    if r.chance(1, 12) {
+        return vec![];
+    }
     let mut pool: Vec<Res> = vec![
         res("noop.js", &["noopjs", "noop"], "application/javascript", b"(function(){})()"),
         res("noop.txt", &["nooptext"], "text/plain", b""),
@@ -641,6 +656,12 @@ fn load(c: &Case, eff: &Effective, extra: Option<&str>, optimize: bool) -> (Load
                     note_res(i, ok, &mut log);
                 }
             } else {
+                // use_resources REPLACES the store: 0-2 earlier calls (decided by the case itself, so a
+                // replay repeats them) load every identifier of the pool as an unprivileged text
+                // resource; only the last call may show in the answers
+                for k in 0..prior_calls(c) {
+                    engine.use_resources(prior_store(k).iter().map(|x| x.to_resource()));
+                }
                 engine.use_resources(c.store.iter().map(|x| x.to_resource()));
             }
             engine.use_tags(&tags);
